@@ -39,7 +39,7 @@ def J(a, b):
     return {"y": {"a": np.array([[2 * a[0]]]), "b": np.array([[3 * b[1], 3 * b[0]]])}, "z": {"a": np.array([[b[0]], [-1.0]]), "b": np.array([[a[0], 0.0], [0.0, 1.0]])}}
 
 
-def _disc_cls(sparse, selfc):
+def _disc_cls(sparse, selfc, inplace=False):
     from gemseo.core.discipline import Discipline
     from scipy.sparse import csr_array
 
@@ -56,7 +56,11 @@ def _disc_cls(sparse, selfc):
             a, b = input_data["a"], input_data["b"]
             self.runs.append((tuple(a.tolist()), tuple(b.tolist())))
             out = F(a, b)
-            if selfc:
+            if selfc and inplace:
+                b *= 0.5  # the body updates its self-coupled input array in place (as a solver would) ...
+                b += 1.0
+                out["b"] = b  # ... and returns it
+            elif selfc:
                 out["b"] = b * 0.5 + 1.0  # self-coupled variable: the output overwrites the input
             return out
 
@@ -80,8 +84,9 @@ class World:
 
     def __init__(self, policy, variant, scratch):
         self.policy, self.variant = policy, variant
-        self.sparse, self.selfc = variant == "sparse", variant == "selfc"
-        self.d = _disc_cls(self.sparse, self.selfc)()
+        self.sparse, self.selfc = variant == "sparse", variant in ("selfc", "selfc_inplace")
+        self.d = _disc_cls(self.sparse, self.selfc, variant == "selfc_inplace")()
+        self.last_b = None
         self.h5 = os.path.join(scratch, f"c05_{os.getpid()}_{next(_COUNTER)}.h5")
         self._set_cache()
         self.shared = {"a": np.array([9.0]), "b": np.array([9.0, 9.0])}
@@ -134,11 +139,15 @@ class Spec:
 
     def enabled(self, w, hist):
         ops = []
+        inplace = self.variant == "selfc_inplace"  # its body modifies the arrays it is given: only fresh arrays are passed
         for v in VALS:
-            ops += [["exec", v], ["exec_alias", v]]
-            if self.variant != "selfc":
+            ops += [["exec", v]] + ([] if inplace else [["exec_alias", v]])
+            if not self.variant.startswith("selfc"):
                 ops += [["lin_all", v], ["lin_sub", v]]
-        ops.append(["exec_default"])
+        if not inplace:
+            ops.append(["exec_default"])
+        if self.variant.startswith("selfc") and w.last_b is not None:
+            ops.append(["exec_prev_out"])  # feed the self-coupled output back as the next input (fixed-point use)
         if self.policy[0] == "hdf":
             ops.append(["reopen"])
         return ops
@@ -164,6 +173,9 @@ class Spec:
         if kind == "exec_default":
             a, b = np.array(DEFAULT[0]), np.array(DEFAULT[1])
             data = {}
+        elif kind == "exec_prev_out":
+            a, b = np.array(w.seen[-1][0]), np.array(w.last_b)
+            data = {"a": a.copy(), "b": b.copy()}
         else:
             a, b = (np.array(x) for x in VALS[op[1]])
             if kind == "exec_alias":
@@ -172,8 +184,10 @@ class Spec:
                 data = {"a": w.shared["a"], "b": w.shared["b"]}
             else:
                 data = {"a": a.copy(), "b": b.copy()}
-        if kind in ("exec", "exec_alias", "exec_default"):
+        if kind in ("exec", "exec_alias", "exec_default", "exec_prev_out"):
             out = d.execute(data)
+            if self.variant.startswith("selfc"):
+                w.last_b = tuple(np.asarray(out["b"]).tolist())
             if check and not self._admissible(w, a, b, lambda ca, cb: self._out_ok(out, ca, cb)):
                 w.problems.append(("wrong-output", f"execute(a={a.tolist()}, b={b.tolist()}) returned { {k: np.asarray(v).tolist() for k, v in out.items() if k in ('y', 'z', 'b')} }; exact value {self._truth(a, b)}"))
             outcome = "exec"
@@ -202,13 +216,13 @@ class Spec:
 
     def _truth(self, a, b):
         out = {k: v.tolist() for k, v in F(a, b).items()}
-        if self.variant == "selfc":
+        if self.variant.startswith("selfc"):
             out["b"] = (b * 0.5 + 1.0).tolist()
         return out
 
     def _out_ok(self, out, ca, cb):
         exp = F(ca, cb)
-        if self.variant == "selfc":
+        if self.variant.startswith("selfc"):
             exp["b"] = cb * 0.5 + 1.0
         return all(k in out and np.array_equal(np.asarray(out[k]), v) for k, v in exp.items())
 
@@ -245,12 +259,20 @@ class Spec:
             for e in entries:
                 if e.outputs:
                     ea, eb = np.asarray(e.inputs["a"]), np.asarray(e.inputs["b"])
-                    if self.variant == "selfc":
+                    if self.variant.startswith("selfc"):
                         continue  # stored inputs of a self-coupled name are the pre-run values; covered by wrong-output
                     exp = F(ea, eb)
                     if not all(np.allclose(e.outputs[k], exp[k], rtol=0, atol=(1e-4 if tol else 0)) for k in exp):
                         out.append(({"invariant": "cache-entry-pairs-input-with-another-inputs-output", **base},
                                     f"entry inputs={ {k: np.asarray(v).tolist() for k, v in e.inputs.items()} } outputs={ {k: np.asarray(v).tolist() for k, v in e.outputs.items()} } exact={ {k: v.tolist() for k, v in exp.items()} }\n  history={hist}"))
+                        break
+                if e.jacobian and not self.variant.startswith("selfc"):
+                    ea, eb = np.asarray(e.inputs["a"]), np.asarray(e.inputs["b"])
+                    ref = J(ea, eb)
+                    wrong = [(o, i) for o, r in e.jacobian.items() for i, m in r.items() if not np.allclose(_dense(m), ref[o][i], rtol=0, atol=(1e-4 if tol else 0))]
+                    if wrong:
+                        out.append(({"invariant": "cache-entry-holds-another-inputs-jacobian", **base},
+                                    f"entry inputs={ {k: np.asarray(v).tolist() for k, v in e.inputs.items()} } stores d{wrong[0][0]}/d{wrong[0][1]}={_dense(e.jacobian[wrong[0][0]][wrong[0][1]]).tolist()} exact={ref[wrong[0][0]][wrong[0][1]].tolist()}\n  history={hist}"))
                         break
         return out
 
@@ -274,7 +296,7 @@ class Spec:
             tuple(sorted((o, i) for o, r in (d.jac or {}).items() for i in r)),
             tuple(sorted(d._differentiated_input_names)) if hasattr(d, "_differentiated_input_names") else (),
             tuple(sorted(d._differentiated_output_names)) if hasattr(d, "_differentiated_output_names") else (),
-            w.shared["a"].tobytes(), w.shared["b"].tobytes(),
+            w.shared["a"].tobytes(), w.shared["b"].tobytes(), w.last_b,
             tuple(sorted(set(w.seen))), len(d.runs),
         )
 
@@ -380,7 +402,7 @@ def run(ctx):
     bounds = {}
     if "H" in only:
         for policy in POLICIES:
-            variants = ["dense", "sparse", "selfc"] if policy[0] in ("simple", "memF") or ctx.thorough else ["dense"]
+            variants = ["dense", "sparse", "selfc", "selfc_inplace"] if policy[0] in ("simple", "memF") or ctx.thorough else ["dense", "selfc_inplace"]
             for variant in variants:
                 slow = policy[0] in ("memT", "hdf")
                 depth = (3 if slow else 4) if ctx.thorough else (2 if slow else 3)
